@@ -11,11 +11,9 @@ package c08
 
 import (
 	"flag"
-	"fmt"
 	"io"
-	"os"
 	"runtime"
-	"time"
+	"strings"
 
 	"github.com/krotik/ecal/parser"
 
@@ -66,7 +64,7 @@ const maxRecordsPerKey = 8
 func Run(c *core.Ctx) {
 	c.Note("rule", "sources: (op2) exhaustive depth-2 operator nesting: every operator (20 infix incl. :=, 3 prefix) as parent x every operator as child x child position x with/without source parentheses x 5 operand sets x 7 expression contexts (bare, list, if guard, call argument, map value, parameter default, return) x 3 layouts; (op3) all 5 tree shapes + the unparenthesised chain over 4 leaves for every triple of 10 representative operators, with a prefix operator on any node; (stmt2) every statement kind ("+
 		"assignment, let, destructuring, calls, if/elif/else, the loop forms, break/continue/return, named/anonymous functions with defaults, try with every clause shape, mutex, import, sink, container and string statements, object templates) in every block kind (top level, if/elif/else, both loops, named/anonymous function, try/except/otherwise/finally, mutex, sink, function inside map / list / call) x 4 positions in the block x 4 layouts; (stmt3) random 2-3 level nestings of those; (str, str-ctx) every sequence of <=3 (thorough <=4) pieces of a 34-piece alphabet (quotes, backslashes, escapes, newlines, {{ }}, non-ASCII, invalid UTF-8, comment markers, braces, control characters) in the 4 literal styles \"..\" '..' r\"..\" r'..' in 14 contexts; (cmt1) 14 comment forms (#, /* */, multi-line, several on one position, glued) at every token gap of 10 template programs in 2 layouts; (cmt2) random 2-3 comments; (cont) lists with 0..6 and maps with 0..4 entries with one special element (nested list 0..6 / map 0..4, function literal, operator, call, multi-line raw string) at every position x 13 contexts x 3 layouts x trailing comma; (sink) every subset of the 5 sink attributes x 3 orders x comma/no comma x 3 bodies x 4 contexts x 3 layouts; (rand) seeded random programs of depth <=4 with random redundant parentheses, literal styles, layouts and comments; (corpus) hand-written example-style programs; (fmt) tool.FormatFiles on temp trees of such files with nested directories, other extensions, unparseable, empty and CRLF files, run twice. "+
-		"A source that does not parse is outside the property and only counted. Non-trivial/distinct = distinct parse trees (node kinds, values, string kinds, nesting and comment placement) of sources that parse; every one of them went through PrettyPrint, re-Parse, own structural comparison and a second PrettyPrint. Trees are compared up to positions, comments, blank lines and the spelling of keyword tokens (keywords are case-insensitive). Evaluation sample: all pure-expression cases, and block programs with loops bounded by construction when the trees are equal; result, error type/detail and log trace are compared.")
+		"A source that does not parse is outside the property and only counted. Non-trivial/distinct = distinct parse trees (node kinds, values, string kinds, nesting and comment placement) of sources that parse; every one of them went through PrettyPrint, re-Parse, own structural comparison and a second PrettyPrint. Trees are compared up to positions, comments, blank lines and the spelling of keyword tokens (keywords are case-insensitive). Evaluation sample: all pure-expression cases, and block programs when the trees are equal; every evaluation is bounded logically by a counting debugger (100000 node visits); result, error type/detail and log trace are compared; programs whose result changes when the whole source is moved (they observe their own positions) are not compared.")
 	flag.CommandLine.SetOutput(io.Discard) // FormatFiles reports unparseable files there
 	// The check is sequential (the parser rewrites a package-level table while
 	// parsing if / for, so parses must not overlap); with one P the hand-over
@@ -76,12 +74,6 @@ func Run(c *core.Ctx) {
 	for si := range streams {
 		s := &streams[si]
 		n := s.count(c)
-		t0 := time.Now()
-		defer func(name string) {
-			if os.Getenv("C08_TIMING") != "" {
-				fmt.Fprintln(os.Stderr, name, time.Since(t0))
-			}
-		}(s.name)
 		for i := 0; i < n; i++ {
 			if !c.Take(s.name, i) {
 				continue
@@ -152,7 +144,7 @@ func (k *checker) check(stream string, idx int, g gcase) {
 			}
 		} else if f != nil && f.cat == "structure" {
 			c.Event("eval.differs (trees differ too)", 1)
-		} else if moved := evalProgram("\n\n   " + g.src); !sameEval(a, moved) {
+		} else if positionDependent(g.src, a) {
 			// the program observes its own source positions (e.g. it turns a
 			// function value into text): moving it changes what it does, so
 			// formatting may as well
@@ -169,6 +161,17 @@ func (k *checker) check(stream string, idx int, g gcase) {
 	if f != nil {
 		k.report(stream, idx, g.src, t1, f, e1, e2, "")
 	}
+}
+
+// positionDependent tells whether moving the source (lines and columns)
+// changes what it does.
+func positionDependent(src string, orig evalOut) bool {
+	for _, prefix := range []string{"\n        ", "\n\n   ", "\n\n\n\n\n\n\n", " ", strings.Repeat("\n", 21) + "     ", strings.Repeat("\n", 98) + strings.Repeat(" ", 90)} {
+		if !sameEval(orig, evalProgram(prefix+src)) {
+			return true
+		}
+	}
+	return false
 }
 
 var whatText = map[string]string{
